@@ -56,7 +56,7 @@ class FlushSyncMachine(Machine):
 def run(ctx):
     chk = Check('C06', ctx)
     prog, K = ctx.prog, ctx.kinds
-    R0 = chk.rule('C06.R0', 'safe_flush_to_disk: flush then fsync(fileno) on every path, per use_fullsync binding', 2)
+    R0 = chk.rule('C06.R0', 'safe_flush_to_disk: flush then fsync(fileno) on every path, per use_fullsync binding and platform model', 4)
     R1 = chk.rule('C06.R1', 'do_fsync defaults to True and is forwarded unchanged', 8)
     R2 = chk.rule('C06.R2', 'loose object: sandbox file flushed+fsynced+closed before rename/replace', 1)
     R3 = chk.rule('C06.R3', 'pack: bytes fsynced before the index commit; loose unlinked only after commit (do_fsync=True)', 3)
@@ -70,18 +70,24 @@ def run(ctx):
     for p in flag:
         bindings = [dict(b, **{p: v}) for b in bindings for v in (False, True)]
     r0_ok = True
-    for b in bindings:
-        g = ctx.icfg(sf.qualname, b, write_policy(depth=2), key='wp2')
-        m = FlushSyncMachine(ctx, sf)
-        viols, st = solve(g, m)
-        chk.crash_points += st['pairs']
-        chk.specialisations += 1
-        if viols:
-            r0_ok = False
-            for v in viols:
-                chk.bad(R0, sf.qualname, f'safe_flush_to_disk{b}', v.msg + f' [binding {b}]', where=f'{sf.module.relpath}:{sf.lineno}', witness=v.witness)
-        else:
-            chk.ok(R0, sf.qualname, f'binding {b}', detail='flush -> fsync(fileno) on all normal paths')
+    from ..resolve import platform_model
+    models = [('this platform', {}), ('macOS model (fcntl.F_FULLFSYNC = 51)', {'fcntl.F_FULLFSYNC': 51})]
+    for mname, overrides in models:
+        for b in bindings:
+            with platform_model(overrides):
+                g = ctx.icfg(sf.qualname, b, write_policy(depth=2), key=('wp2', mname))
+                m = FlushSyncMachine(ctx, sf)
+                viols, st = solve(g, m)
+            chk.crash_points += st['pairs']
+            chk.specialisations += 1
+            if viols:
+                if not overrides:
+                    r0_ok = False
+                for v in viols:
+                    chk.bad(R0, sf.qualname, f'safe_flush_to_disk{b} on {mname}', v.msg + f' [binding {b}, {mname}]',
+                            where=f'{sf.module.relpath}:{sf.lineno}', witness=v.witness)
+            else:
+                chk.ok(R0, sf.qualname, f'binding {b} on {mname}', detail='flush -> fsync(fileno) on all normal paths')
 
     # ---------------------------------------------------------------- R1
     holders = [f for f in prog.all_functions() if FLAG in f.params]
